@@ -20,7 +20,11 @@ EXTENDS RingPerception, TLC
 
 CONSTANTS MaxN,       \* largest atom count (cycles of the complete graph on MaxN atoms are precomputed)
           FullN, TypedNs, ClassNs, SaNs, MonoNs,
-          PermAllN    \* graphs with up to this many atoms: relabelling law for EVERY permutation
+          PermAllN,   \* graphs with up to this many atoms: relabelling law for EVERY permutation
+          LawFams     \* families on which the structural laws (cycles, minimum basis, type maps,
+                      \* relabelling) are checked; the others get the expected values, the
+                      \* domain, traversal and rotatable-bond laws only (their bond STRUCTURES are
+                      \* all contained in the mono families of the same atom count)
 
 VARIABLES kind, n, tv, exp
 vars == <<kind, n, tv, exp>>
@@ -103,13 +107,14 @@ Spec == Init /\ [][Next]_vars
 
 (* ------------------------------------------------------------------ invariants = laws *)
 IsInput == kind \in Fams
+IsLawInput == kind \in LawFams
 B == BondsOf(n, tv)
 Ea == AromEdgesOf(B)
 E == EdgesOf(B)
 
 InvDom == IsInput => Dom_Graph(n, B) /\ Dom_Rows(n, SortedRows(B)) /\ TvOf(n, B) = tv
 InvCycles ==
-  IsInput =>
+  IsLawInput =>
     /\ RingBonds(E, K) = RingBondsByReach(E)
     /\ RingBonds(Ea, K) = RingBondsByReach(Ea)
     /\ exp.mu = 0 <=> exp.rbonds = {}
@@ -117,7 +122,7 @@ InvCycles ==
     /\ Cardinality(CyclesIn(Ea, K)) <= 7 =>
          Independent(CyclesIn(Ea, K)) = IndependentDecl(CyclesIn(Ea, K))
 InvMinBasis ==
-  IsInput =>
+  IsLawInput =>
     /\ Law_MinBasisIsBasis(Ea, K, n)
     /\ Law_GreedyMinimum(Ea, K, n)
     /\ Law_MinBasisIsBasis(E, K, n)
@@ -132,15 +137,17 @@ InvImplBasis ==
             /\ UNION RingSet(r) = exp.rbonds
             /\ LET f == RingFlags(r, Ea, n, exp.hist) IN f.valid /\ f.once /\ f.count /\ f.indep
 InvRotatable == IsInput => Law_Rotatable(n, B, K)
-InvTypeMaps ==
+InvTypeMaps == IsLawInput => Law_TypeMaps(n, B, K)
+\* the expected values of the dump are the values of the public operators
+InvExp ==
   IsInput =>
-    /\ Law_TypeMaps(n, B, K)
     /\ BondsOf(n, exp.na) = Op_RemoveAromaticity(B)
     /\ BondsOf(n, exp.no) = Op_RemoveBondOrder(B)
     /\ exp.ratoms = RingAtoms(Ea, K) /\ exp.rbonds = RingBonds(Ea, K)
+    /\ exp.rot = EdgesOf(BridgeRotatable(B))
 AllPerms(m) == {p \in [1..m -> Atoms(m)] : IsPerm(p, m)}
 InvRelabel ==
-  IsInput =>
+  IsLawInput =>
     \A pi \in (IF n <= PermAllN THEN AllPerms(n) ELSE GenPerms(n)) : Law_Relabel(n, B, K, pi)
 \* NOT an invariant of the design (finding X08-F1): checked by MCImplMin.cfg, whose violation
 \* is the expected result
